@@ -108,6 +108,8 @@ def _run_doc(raw, max_depth=None):
             err = f"rest state: stack {uc.schema_stack}"
         elif any(s == u.SchemaState.IN_PROGRESS for s in uc.schema_states.values()):
             err = f"rest state: in progress {[k for k, s in uc.schema_states.items() if s == u.SchemaState.IN_PROGRESS]}"
+        elif any(s == u.SchemaState.NOT_STARTED for k, s in uc.schema_states.items()):
+            err = f"rest state: left NOT_STARTED although parsed {[k for k, s in uc.schema_states.items() if s == u.SchemaState.NOT_STARTED]}"
         elif ev["enter"] != ev["exit"]:
             err = f"{ev['enter']} enters / {ev['exit']} exits"
         else:
